@@ -54,6 +54,10 @@ let handle (line : string) : string =
       (match find_prim (prims_of tb) name with
        | None -> "NOPRIM"
        | Some p -> string_of_cl (run_attr p (z_of_string v)))
+  | ["fe"; "hex"; t] -> string_of_cl (run_fe_hex (bytes_of_hex t))
+  | ["fe"; "swtpm"; t] -> string_of_cl (run_fe_swtpm (bytes_of_hex t))
+  | ["fe"; "auto"; t] -> string_of_cl (run_fe_auto (bytes_of_hex t))
+  | ["fe"; "pcap"; t] -> string_of_cl (run_fe_pcap (List.map bytes_of_hex (if t = "-" then [] else String.split_on_char ',' t)))
   | ["rc"; tb; v] -> string_of_cl (run_rc (tb = "cur") (z_of_string v))
   | ["rcspec"; v] -> string_of_cl (run_rc_spec (z_of_string v))
   | ["int"; tb; name; v] ->
